@@ -339,7 +339,32 @@ func stressPool(n, iters int, r *stressRes) {
 		dcert, _ := x509.ParseCertificate(dder)
 		inters.AddCert(dcert)
 	}
+	// and two RE-ISSUED copies of the real intermediate (same name, key and key identifier, other serial numbers): every leaf
+	// has three valid chains, and the list a concurrent Verify returns must be the list the sequential one returns, in
+	// the same order
+	for k := 0; k < 2; k++ {
+		rt := *it
+		rt.SerialNumber = nextSerial()
+		rder, err := x509.CreateCertificate(&rt, root.cert, &ikey.PublicKey, root.key)
+		if err != nil {
+			r.bad("re-issued intermediate %d: %v", k, err)
+			return
+		}
+		rcert, _ := x509.ParseCertificate(rder)
+		inters.AddCert(rcert)
+	}
+	chainsOf := func(ch [][]*x509.Certificate) string {
+		var sb strings.Builder
+		for _, c := range ch {
+			for _, x := range c {
+				sb.WriteString(x.SerialNumber.String() + ",")
+			}
+			sb.WriteString(";")
+		}
+		return sb.String()
+	}
 	leaves := make([]*x509.Certificate, n)
+	want := make([]string, n)
 	for g := range leaves {
 		_, lc, err := inter.issue(leafOpt{cn: fmt.Sprintf("leaf %d", g), dns: []string{fmt.Sprintf("l%d.example.com", g)}, usage: x509.KeyUsageDigitalSignature})
 		if err != nil {
@@ -354,8 +379,14 @@ func stressPool(n, iters int, r *stressRes) {
 		return x509.VerifyOptions{Roots: roots, Intermediates: inters, CurrentTime: pkiEpoch, KeyUsages: []x509.ExtKeyUsage{x509.ExtKeyUsageAny}}
 	}
 	for g := range leaves {
-		if ch, err := leaves[g].Verify(opts()); err != nil || len(ch) != 1 || len(ch[0]) != 3 {
-			r.bad("sequential verification of leaf %d: %v", g, err)
+		ch, err := leaves[g].Verify(opts())
+		if err != nil || len(ch) != 3 || len(ch[0]) != 3 {
+			r.bad("sequential verification of leaf %d: %v (%d chains)", g, err, len(ch))
+			return
+		}
+		want[g] = chainsOf(ch)
+		if ch2, _ := leaves[g].Verify(opts()); chainsOf(ch2) != want[g] {
+			r.bad("sequential verification of leaf %d is not deterministic", g)
 			return
 		}
 	}
@@ -363,8 +394,10 @@ func stressPool(n, iters int, r *stressRes) {
 		for i := 0; i < iters; i++ {
 			guard(r, "shared certificate pool", func() {
 				ch, err := leaves[g].Verify(opts())
-				if err != nil || len(ch) != 1 || len(ch[0]) != 3 || !bytes.Equal(ch[0][0].Raw, leaves[g].Raw) {
+				if err != nil || len(ch) != 3 || len(ch[0]) != 3 || !bytes.Equal(ch[0][0].Raw, leaves[g].Raw) {
 					r.bad("concurrent Verify of leaf %d: %v (%d chains)", g, err, len(ch))
+				} else if got := chainsOf(ch); got != want[g] {
+					r.bad("concurrent Verify of leaf %d returned its chains (leaf, intermediate, root serial numbers) as %s, the sequential call as %s", g, got, want[g])
 				}
 				if _, err := foreign.Verify(opts()); err == nil {
 					r.bad("a certificate of another root verified against the shared pool")
@@ -623,8 +656,9 @@ func stressLRU(n, iters int, r *stressRes) {
 	}
 }
 
-func stressRun(what string, n, iters int) *stressRes {
-	r := &stressRes{}
+func stressRun(what string, n, iters int) *stressRes { return stressRunInto(what, n, iters, &stressRes{}) }
+
+func stressRunInto(what string, n, iters int, r *stressRes) *stressRes {
 	switch what {
 	case "pkg":
 		stressPkg(n, iters, r)
@@ -655,8 +689,47 @@ func c20stress(args []string) error {
 	var n, iters int
 	fmt.Sscan(args[1], &n)
 	fmt.Sscan(args[2], &iters)
-	r := stressRun(args[0], n, iters)
-	out, _ := json.Marshal(map[string]interface{}{"driver": args[0], "goroutines": n, "ops": r.Ops, "mismatch": r.Mismatch})
+	// the driver runs under a watchdog: when no call has returned for 90 s and the goroutine dump shows callers parked on a
+	// lock or channel inside the library, the calls deadlocked - no sequential order of them does that
+	var r *stressRes
+	res := make(chan *stressRes, 1)
+	live := &stressRes{}
+	go func() { res <- stressRunInto(args[0], n, iters, live) }()
+	last, lastChange := int64(-1), time.Now()
+wait:
+	for {
+		select {
+		case r = <-res:
+			break wait
+		case <-time.After(time.Second):
+			if o := atomic.LoadInt64(&live.Ops); o != last {
+				last, lastChange = o, time.Now()
+			} else if time.Since(lastChange) > 90*time.Second {
+				buf := make([]byte, 1<<20)
+				dump := string(buf[:runtime.Stack(buf, true)])
+				parked := 0
+				for _, g := range strings.Split(dump, "\n\n") {
+					if strings.Contains(g, "github.com/tjfoc/gmsm/") && !strings.Contains(g, "verif/harness.c20stress") &&
+						(strings.Contains(g, "[sync.") || strings.Contains(g, "[semacquire") || strings.Contains(g, "[chan ") || strings.Contains(g, "[select")) {
+						parked++
+						if parked == 1 {
+							lines := strings.Split(g, "\n")
+							if len(lines) > 12 {
+								lines = lines[:12]
+							}
+							live.bad("no call returned for 90 s; %d-goroutine driver stuck, e.g. %s", n, strings.Join(lines, " | "))
+						}
+					}
+				}
+				if parked == 0 {
+					return fmt.Errorf("driver %s made no progress for 90 s, no goroutine is parked inside the library", args[0])
+				}
+				r = live
+				break wait
+			}
+		}
+	}
+	out, _ := json.Marshal(map[string]interface{}{"driver": args[0], "goroutines": n, "ops": atomic.LoadInt64(&r.Ops), "mismatch": r.Mismatch})
 	return os.WriteFile(args[3], out, 0644)
 }
 
